@@ -269,7 +269,10 @@ pub trait Subject: Send + Sync {
     fn de_plain(&self, _fmt: Fmt, _pos: Pos, _doc: &[u8]) -> DeOut {
         DeOut::Absent
     }
-    /// error text of a failed top-level decode (C16)
+    /// decode through the adversarial deserializer that calls one chosen visitor method
+    fn de_probe(&self, _call: &crate::serde_h::ProbeCall) -> DeOut {
+        DeOut::Absent
+    }
     fn ser(&self, _fmt: Fmt, _v: &Val) -> SerOut {
         SerOut::default()
     }
